@@ -68,7 +68,7 @@ def check_case(acc, case, unit):
         reencode(acc, case.root, case.b, r, d, "strict")
     # warn mode, value-corrupted variants of the shallow encodings
     ndev = case.ndev
-    if ndev > (0 if unit["tier"] == "quick" else 1):
+    if ndev > (0 if unit["tier"] == "quick" else 1) or unit["label"].endswith("/big"):
         return
     from ..ref.decode import decode
 
